@@ -799,6 +799,52 @@ func checkLockOrder(c *Ctx, rule string, scope map[*ssa.Function]bool, li *lockI
 			}
 		})
 	}
+	// re-acquisition through the package's own API: a call, made while a keeper lock class is held, of an
+	// exported function that takes the same class itself. A recursive read lock is a deadlock as soon as
+	// a writer is waiting between the two RLocks (Go's RWMutex blocks new readers then); a write lock
+	// after any hold blocks at once.
+	{
+		takes := map[*ssa.Function]map[string]byte{}
+		for fn := range scope {
+			if fn.Parent() != nil || !isExportedFunc(fn) {
+				continue
+			}
+			allInstrs(fn, func(in ssa.Instruction) {
+				if cls, mode, _, op, ok := lockOp(in); ok && op == "lock" {
+					if takes[fn] == nil {
+						takes[fn] = map[string]byte{}
+					}
+					takes[fn][cls] = mode
+				}
+			})
+		}
+		var bad []string
+		n := 0
+		for fn := range scope {
+			fn := fn
+			allInstrs(fn, func(in ssa.Instruction) {
+				callee := staticCallee(in)
+				if callee == nil || takes[callee] == nil {
+					return
+				}
+				if _, isGo := in.(*ssa.Go); isGo {
+					return
+				}
+				n++
+				for k := range li.at[in] {
+					if _, again := takes[callee][k.Class]; again {
+						bad = append(bad, fmt.Sprintf("%s calls %s at %s while holding %s(%c), which %s locks again", FuncName(fn), callee.Name(), c.Pos(in.Pos()), shortType(k.Class), k.Mode, callee.Name()))
+					}
+				}
+			})
+		}
+		sort.Strings(bad)
+		if len(bad) > 0 {
+			c.Bad(rule, "no-reacquisition-through-the-api", "", strings.Join(bad, "; ")+": the second acquisition blocks behind a waiting writer that itself waits for the first to be released — the request, the writer and every later request hang")
+		} else {
+			c.OK(rule, "no-reacquisition-through-the-api", "", fmt.Sprintf("%d calls of lock-taking API functions from inside the scope, none while their lock class is held", n))
+		}
+	}
 	// cycle detection
 	var cyc []string
 	state := map[string]int{}
